@@ -50,9 +50,24 @@ impl RngCore for ScriptRng {
     }
 }
 
-struct ProbeDecoder {
-    ctl: Arc<Mutex<Ctl>>,
+thread_local! {
+    /// Control block of the worker thread we are running on (set when the worker asks for its RNG).
+    static MY_CTL: std::cell::RefCell<Option<Arc<Mutex<Ctl>>>> = const { std::cell::RefCell::new(None) };
 }
+
+/// All workers of one BER run.
+struct Shared {
+    workers: Mutex<Vec<(usize, Arc<Mutex<Ctl>>)>>,
+    messages: Vec<Vec<u8>>,
+    k: usize,
+    seed: u64,
+}
+
+fn worker_seed(seed: u64, idx: usize) -> u64 {
+    seed.wrapping_add(1000 * idx as u64)
+}
+
+struct ProbeDecoder {}
 
 impl std::fmt::Debug for ProbeDecoder {
     fn fmt(&self, f: &mut std::fmt::Formatter<'_>) -> std::fmt::Result {
@@ -62,7 +77,8 @@ impl std::fmt::Debug for ProbeDecoder {
 
 impl LdpcDecoder for ProbeDecoder {
     fn decode(&mut self, llrs: &[f64], _max: usize) -> Result<DecoderOutput, DecoderOutput> {
-        let mut c = self.ctl.lock().unwrap();
+        let ctl = MY_CTL.with(|c| c.borrow().clone()).expect("probe decoder used on a thread that never asked for its RNG");
+        let mut c = ctl.lock().unwrap();
         let j = c.frames_seen;
         c.frames_seen += 1;
         c.llrs.push(llrs.to_vec());
@@ -85,9 +101,7 @@ impl LdpcDecoder for ProbeDecoder {
 }
 
 #[derive(Clone)]
-struct ProbeFactory {
-    ctl: Arc<Mutex<Ctl>>,
-}
+struct ProbeFactory {}
 
 impl std::fmt::Display for ProbeFactory {
     fn fmt(&self, f: &mut std::fmt::Formatter<'_>) -> std::fmt::Result {
@@ -97,7 +111,7 @@ impl std::fmt::Display for ProbeFactory {
 
 impl DecoderFactory for ProbeFactory {
     fn build_decoder(&self, _h: SparseMatrix) -> Box<dyn LdpcDecoder> {
-        Box::new(ProbeDecoder { ctl: self.ctl.clone() })
+        Box::new(ProbeDecoder {})
     }
 }
 
@@ -109,6 +123,7 @@ struct Config {
     interleave: Option<isize>,
     ebn0: f32,
     seed: u64,
+    workers: usize,
 }
 
 fn codes() -> Vec<(&'static str, Small)> {
@@ -181,24 +196,23 @@ fn run_config(cfg: &Config, thorough: bool, acc: &mut Acc) {
     let k = m.n - m.r;
     let n_cw = m.n;
     let messages = messages_for(&m, thorough);
-    let key = format!("chain:{}:{}:{:?}:{:?}:{}:s{}", cfg.hname, if cfg.psk8 { "8PSK" } else { "BPSK" }, cfg.pattern.as_ref().map(|p| p.iter().map(|&b| if b { '1' } else { '0' }).collect::<String>()), cfg.interleave, cfg.ebn0, cfg.seed);
-    let replay = json!({"kind": "config", "h": cfg.hname, "psk8": cfg.psk8, "pattern": cfg.pattern, "interleave": cfg.interleave, "ebn0": cfg.ebn0, "seed": cfg.seed});
+    let key = format!("chain:{}{}:{}:{:?}:{:?}:{}:s{}", cfg.hname, if cfg.workers > 1 { format!(":W{}", cfg.workers) } else { String::new() }, if cfg.psk8 { "8PSK" } else { "BPSK" }, cfg.pattern.as_ref().map(|p| p.iter().map(|&b| if b { '1' } else { '0' }).collect::<String>()), cfg.interleave, cfg.ebn0, cfg.seed);
+    let replay = json!({"kind": "config", "h": cfg.hname, "psk8": cfg.psk8, "pattern": cfg.pattern, "interleave": cfg.interleave, "ebn0": cfg.ebn0, "seed": cfg.seed, "workers": cfg.workers});
     acc.evals += 1;
-    let ctl = Arc::new(Mutex::new(Ctl {
-        forced: messages[0].iter().map(|&b| b == 1).collect(),
-        messages: messages.clone(),
-        frames_seen: 0,
-        llrs: Vec::new(),
-        k,
-    }));
-    let seed = cfg.seed;
-    let ctl_rng = ctl.clone();
+    let shared = Arc::new(Shared { workers: Mutex::new(Vec::new()), messages: messages.clone(), k, seed: cfg.seed });
+    let sh = shared.clone();
     let session = Arc::new(Session::new(
-        Some(1),
-        Some(Arc::new(move |_i: usize| Box::new(ScriptRng { ctl: ctl_rng.clone(), inner: SplitMix(seed) }) as Box<dyn RngCore + Send>)),
+        Some(cfg.workers),
+        Some(Arc::new(move |idx: usize| {
+            // called on the worker thread: create this worker's control block and remember it there
+            let ctl = Arc::new(Mutex::new(Ctl { forced: sh.messages[0].iter().map(|&b| b == 1).collect(), messages: sh.messages.clone(), frames_seen: 0, llrs: Vec::new(), k: sh.k }));
+            sh.workers.lock().unwrap().push((idx, ctl.clone()));
+            MY_CTL.with(|c| *c.borrow_mut() = Some(ctl.clone()));
+            Box::new(ScriptRng { ctl, inner: SplitMix(worker_seed(sh.seed, idx)) }) as Box<dyn RngCore + Send>
+        })),
         true,
     ));
-    let factory = ProbeFactory { ctl: ctl.clone() };
+    let factory = ProbeFactory {};
     let ebn0s = [cfg.ebn0];
     let pattern = cfg.pattern.clone();
     let (interleave, psk8) = (cfg.interleave, cfg.psk8);
@@ -246,24 +260,36 @@ fn run_config(cfg: &Config, thorough: bool, acc: &mut Acc) {
         acc.violate(key, format!("reported (frame size, codeword size, k, rate) = ({}, {}, {}, {}) but transmitted frame has {} bits, codeword {}, k {}, rate {}", n_rep, ncw_rep, k_rep, rate_rep, n_tx, n_cw, k, rate), replay);
         return;
     }
-    if stats.len() != 1 || stats[0].num_frames != messages.len() as u64 {
+    if stats.len() != 1 || (cfg.workers == 1 && stats[0].num_frames != messages.len() as u64) {
         acc.violate(key, format!("run consumed {:?} frames, {} were scripted", stats.first().map(|s| s.num_frames), messages.len()), replay);
         return;
     }
     // the independent chain
     let bps = if cfg.psk8 { 3.0 } else { 1.0 };
     let sigma = (1.0 / (2.0 * rate * bps * 10f64.powf(0.1 * cfg.ebn0 as f64))).sqrt();
-    let mut stream = ScriptRng {
-        ctl: Arc::new(Mutex::new(Ctl { forced: VecDeque::new(), messages: vec![], frames_seen: 0, llrs: vec![], k })),
-        inner: SplitMix(cfg.seed),
-    };
-    let observed = ctl.lock().unwrap().llrs.clone();
-    if observed.len() < messages.len() {
-        acc.violate(key, format!("decoder saw {} frames, {} scripted", observed.len(), messages.len()), replay);
+    let workers: Vec<(usize, Arc<Mutex<Ctl>>)> = shared.workers.lock().unwrap().clone();
+    if workers.len() != cfg.workers {
+        acc.violate(key, format!("{} workers asked for an RNG, {} configured", workers.len(), cfg.workers), replay);
         return;
     }
     let mut max_rel = 0.0f64;
-    for (j, msg) in messages.iter().enumerate() {
+    let mut frames_total = 0usize;
+    let mut first_observed: Vec<f64> = Vec::new();
+    for (widx, wctl) in &workers {
+    let mut stream = ScriptRng {
+        ctl: Arc::new(Mutex::new(Ctl { forced: VecDeque::new(), messages: vec![], frames_seen: 0, llrs: vec![], k })),
+        inner: SplitMix(worker_seed(cfg.seed, *widx)),
+    };
+    let observed = wctl.lock().unwrap().llrs.clone();
+    if cfg.workers == 1 && observed.len() < messages.len() {
+        acc.violate(key, format!("decoder saw {} frames, {} scripted", observed.len(), messages.len()), replay);
+        return;
+    }
+    if first_observed.is_empty() && observed.len() > 1 {
+        first_observed = observed[1].clone();
+    }
+    for (j, msg) in messages.iter().enumerate().take(observed.len()) {
+        frames_total += 1;
         let cw = ref_codeword(&m, msg);
         let tx: Vec<u8> = match &cfg.pattern {
             Some(p) => ref_puncture(&cw, p),
@@ -360,11 +386,15 @@ fn run_config(cfg: &Config, thorough: bool, acc: &mut Acc) {
             }
         }
     }
+    }
     acc.nontrivial += 1;
-    acc.add("frames_checked", messages.len() as u64);
+    acc.add("frames_checked", frames_total as u64);
+    if cfg.workers > 1 {
+        acc.add("multi_worker_runs", 1);
+    }
     acc.outcome(&(cfg.hname, cfg.psk8, cfg.pattern.clone(), cfg.interleave));
     if acc.evals % 97 == 5 {
-        let first = observed[1.min(observed.len() - 1)].clone();
+        let first = first_observed.clone();
         acc.sample(|| json!({"config": format!("{:?}", cfg), "sigma": sigma, "n_tx": n_tx, "frame1_decoder_input": first, "max_relative_error": max_rel}));
     }
 }
@@ -407,7 +437,11 @@ fn configs(thorough: bool) -> Vec<Config> {
                     for ebn0 in ebn0s {
                         let seeds: Vec<u64> = if thorough { vec![11, 7777, 123456789, 5] } else { vec![11, 7777] };
                         for seed in seeds {
-                            v.push(Config { hname, psk8, pattern: pat.clone(), interleave: inter, ebn0, seed });
+                            v.push(Config { hname, psk8, pattern: pat.clone(), interleave: inter, ebn0, seed, workers: 1 });
+                            // every frame of every worker: the same configuration with three workers
+                            if seed == 11 && (thorough || ebn0 == 2.5) && pat.as_ref().map_or(true, |p| p.len() <= if thorough { 6 } else { 3 }) {
+                                v.push(Config { hname, psk8, pattern: pat.clone(), interleave: inter, ebn0, seed, workers: 3 });
+                            }
                         }
                     }
                 }
@@ -445,6 +479,7 @@ pub fn run(run: &Run) -> i32 {
             interleave: e["interleave"].as_i64().map(|x| x as isize),
             ebn0: e["ebn0"].as_f64().unwrap() as f32,
             seed: e["seed"].as_u64().unwrap(),
+            workers: e["workers"].as_u64().unwrap_or(1) as usize,
         };
         run_config(&cfg, true, &mut acc);
     } else {
@@ -457,13 +492,13 @@ pub fn run(run: &Run) -> i32 {
         run,
         acc,
         Coverage {
-            rule: "codes {3x5 staircase, 3x6 and 3x9 general, 4x12 dense} x {BPSK, 8PSK where 3 | frame size} x {no puncturing, EVERY boolean pattern of length p | n, p <= 9, >= 1 true (includes the smallest case where n / rate is not exact in binary: n = 9, 9 blocks keeping 7)} x {no interleaver, +-c for EVERY c | frame size} x Eb/N0 in {-3, 2.5, 9, 60} dB x 2 (thorough 4) noise streams; each run feeds ALL 2^k messages (dense 4x12 in quick: weight <= 2 and all-ones) through the real BerTest built by BerTestBuilder with 1 worker, a harness-owned RNG (message bits forced through the engine's own sampling call, deterministic noise stream) and a probing decoder that records every LLR vector. Oracle: independent chain (own GF(2) systematic codeword, block puncturing, column-write/row-read permutation, literal constellation table, sigma from the after-puncturing rate and bits/symbol, sigma * standard-normal draws taken in order from a clone of the stream, closed-form posterior LLR, inverse permutation, zero-filled depuncturing): length, exact 0.0 at punctured positions, values within 1e-9 relative, codeword signs at 60 dB, reported n / n_cw / k / rate. Every configuration is distinct; non-trivial = run completed and compared.".into(),
+            rule: "codes {3x5 staircase, 3x6 and 3x9 general, 4x12 dense} x {BPSK, 8PSK where 3 | frame size} x {no puncturing, EVERY boolean pattern of length p | n, p <= 9, >= 1 true (includes the smallest case where n / rate is not exact in binary: n = 9, 9 blocks keeping 7)} x {no interleaver, +-c for EVERY c | frame size} x Eb/N0 in {-3, 2.5, 9, 60} dB x 2 (thorough 4) noise streams; each run feeds ALL 2^k messages (dense 4x12 in quick: weight <= 2 and all-ones) through the real BerTest built by BerTestBuilder with 1 worker (and again with 3 workers for one Eb/N0 and stream: every frame of every worker is compared with that worker's own reference stream), a harness-owned RNG (message bits forced through the engine's own sampling call, deterministic noise stream) and a probing decoder that records every LLR vector. Oracle: independent chain (own GF(2) systematic codeword, block puncturing, column-write/row-read permutation, literal constellation table, sigma from the after-puncturing rate and bits/symbol, sigma * standard-normal draws taken in order from a clone of the stream, closed-form posterior LLR, inverse permutation, zero-filled depuncturing): length, exact 0.0 at punctured positions, values within 1e-9 relative, codeword signs at 60 dB, reported n / n_cw / k / rate. Every configuration is distinct; non-trivial = run completed and compared.".into(),
             exhaustive: true,
             extra,
             graph: None,
             assumptions: vec![
                 "that the draws are Gaussian is delegated to rand_distr::StandardNormal (trusted base); the check decides that the engine adds sigma_expected * one fresh standard-normal draw per real dimension, in symbol order, real part before imaginary part (stream positions stay in lock-step across frames)".into(),
-                "one worker thread (the worker-count dimension belongs to C13)".into(),
+                "worker counts 1 and 3; which worker ends the run is schedule dependent (real threads), the oracle judges whatever frames each worker processed".into(),
             ],
         },
     )
